@@ -184,6 +184,6 @@ M('sparse_channels_not_reordered', ['C05'], 'phylib/io/model.py',
 M('closest_channels_l1', ['C05'], 'phylib/io/model.py',
   "    d = (x - x0) ** 2 + (y - y0) ** 2\n", "    d = np.abs(x - x0) + (y - y0) ** 2\n")
 M('threshold_strict', ['C05'], 'phylib/io/model.py',
-  "        peak_channels = np.nonzero(amplitude >= amplitude_threshold * max_amp)[0]", "        peak_channels = np.nonzero(amplitude > amplitude_threshold * max_amp * 0.999)[0]")
+  "        peak_channels = np.nonzero(amplitude >= amplitude_threshold * max_amp)[0]", "        peak_channels = np.nonzero((amplitude > amplitude_threshold * max_amp) | (amplitude == max_amp))[0]")
 M('sparse_signal_free_kept', ['C05'], 'phylib/io/model.py',
   "        has_signal = template_max > template_max.max() * 1e-6\n", "        has_signal = template_max >= 0\n")
